@@ -71,7 +71,7 @@ func runC04(e *Env) {
 	e.As(map[string]string{"C13.methods": "C04.render"}, func() { ruleC13Methods(e) })
 	// … and those bytes are the digits of the shortened value, grouped in threes where asked, then the unit (C13.format)
 	ruleFormatSem(e, "C04.render")
-	e.S.Floor("C04.render", 11)
+	e.S.Floor("C04.render", 10)
 }
 
 // segs flattens an abstract byte-sequence value built by append / strconv.AppendUint into readable segments.
